@@ -490,7 +490,9 @@ func (ex *Exec) byContract(fr *Frame, st *State, ci *ssa.Call, ct *Contract, key
 	nres := sig.Results().Len()
 	mk := func(i int) *Val {
 		t := sig.Results().At(i).Type()
+		ex.freshCtx++
 		v := ex.freshVal(t, fmt.Sprintf("%s.%s", short, rnames[i]))
+		ex.freshCtx--
 		if an, ok := ct.ResultAlias[rnames[i]]; ok && v.K == KSlice {
 			if a, ok := env[an]; ok && a.K == KSlice {
 				v.Tg = a.Tg
@@ -519,6 +521,13 @@ func (ex *Exec) byContract(fr *Frame, st *State, ci *ssa.Call, ct *Contract, key
 		res = &Val{K: KTuple, Typ: rt}
 	}
 	cpost := &SCtx{ex: ex, pkg: pkg, env: env2, oldEnv: env, cur: st, old: old}
+	// ensures clauses of the form [G ==>] L == R (or same(L)) over pointer / interface
+	// locations re-point the location: they are applied as (guarded) assignments first
+	for _, c := range ct.Ensures {
+		for _, as := range flattenAssigns(c.Expr, nil) {
+			ex.applyPtrAssign(cpost, st, as)
+		}
+	}
 	for _, c := range ct.Ensures {
 		ex.assume(st.pc, cpost.bool(c.Expr))
 	}
@@ -661,4 +670,71 @@ func (ex *Exec) checkFrameUnknown(fr *Frame, st *State, args []*Val, in ssa.Inst
 			}
 		}
 	}
+}
+
+type ptrAssign struct {
+	guard []*SExpr
+	lhs   *SExpr
+	rhs   *SExpr // nil: old(lhs)
+}
+
+func flattenAssigns(e *SExpr, guard []*SExpr) []ptrAssign {
+	switch {
+	case e.Op == "bin" && e.Name == "&&":
+		return append(flattenAssigns(e.Args[0], guard), flattenAssigns(e.Args[1], guard)...)
+	case e.Op == "bin" && e.Name == "==>":
+		return flattenAssigns(e.Args[1], append(append([]*SExpr{}, guard...), e.Args[0]))
+	case e.Op == "bin" && e.Name == "==":
+		return []ptrAssign{{guard: guard, lhs: e.Args[0], rhs: e.Args[1]}}
+	case e.Op == "call" && e.Name == "same" && len(e.Args) == 1:
+		return []ptrAssign{{guard: guard, lhs: e.Args[0], rhs: nil}}
+	}
+	return nil
+}
+
+func (ex *Exec) applyPtrAssign(c *SCtx, st *State, as ptrAssign) {
+	saved := ex.specErrs
+	defer func() { ex.specErrs = saved }()
+	p := c.addr(as.lhs)
+	if p == nil || len(p.Tg) != 1 || p.Tg[0].Loc.HasIdx() {
+		return
+	}
+	t := ex.safeTypeAt(p.Tg[0].Loc)
+	if t == nil || isErrorType(t) {
+		return
+	}
+	switch under(t).(type) {
+	case *types.Pointer, *types.Interface:
+	default:
+		return
+	}
+	var rv *Val
+	if as.rhs == nil {
+		c2 := *c
+		c2.inOld = true
+		rv = c2.eval(as.lhs)
+	} else {
+		rv = c.eval(as.rhs)
+	}
+	if rv == nil || (rv.K != KPtr && rv.K != KIface) {
+		return
+	}
+	if rv.K == KPtr && rv.Typ == types.Typ[types.UntypedNil] {
+		rv = ex.zeroVal(t)
+	}
+	g := True
+	for _, ge := range as.guard {
+		g = And(g, c.bool(ge))
+	}
+	cur := ex.load(st, p.Tg[0].Loc, t)
+	if cur.K != rv.K {
+		return
+	}
+	nv := ex.ite(g, rv, cur)
+	if nv.K == KPtr || nv.K == KIface {
+		c2 := *nv
+		c2.Typ = t
+		nv = &c2
+	}
+	st.cells[p.Tg[0].Loc.Key()] = nv
 }
